@@ -5,7 +5,7 @@ from props import sessprop
 
 def gen(rnd):
     cfg = [None, None, 0, rnd.randrange(2), 0]
-    c = sessioncheck.build_case(rnd, n_events=rnd.choice([10, 25, 40]), chatter=0.3, config=cfg)
+    c = sessioncheck.build_case(rnd, n_events=rnd.choice([10, 25, 40]), chatter=0.3, config=cfg, esc_chatter=True)
     return c
 
 
